@@ -8,6 +8,8 @@
         uninterp spec fn spec_dec(b: Seq<u8>) -> Option<(Subs, int)>;
         open spec fn progresses() -> bool { false }
         open spec fn self_delimiting() -> bool { false }
+        open spec fn dec_rel(b: Seq<u8>, v: &Subs, k: int) -> bool { true }
+        open spec fn dec_total() -> bool { false }
         /// the tag loop is specified by totality and frame clauses only
         open spec fn functional() -> bool { false }
         //@ fn exp:zvt | impl zvt_builder::encoding::Encoding<Subs> for zvt_builder::encoding::Default | encode | mod=packets::tlv props=C03
@@ -37,6 +39,8 @@
         uninterp spec fn spec_dec(b: Seq<u8>) -> Option<(SubsOnCard, int)>;
         open spec fn progresses() -> bool { false }
         open spec fn self_delimiting() -> bool { false }
+        open spec fn dec_rel(b: Seq<u8>, v: &SubsOnCard, k: int) -> bool { true }
+        open spec fn dec_total() -> bool { false }
         /// the tag loop is specified by totality and frame clauses only
         open spec fn functional() -> bool { false }
         //@ fn exp:zvt | impl zvt_builder::encoding::Encoding<SubsOnCard> for zvt_builder::encoding::Default | encode | mod=packets::tlv props=C03
@@ -66,6 +70,8 @@
         uninterp spec fn spec_dec(b: Seq<u8>) -> Option<(StatusInformation, int)>;
         open spec fn progresses() -> bool { false }
         open spec fn self_delimiting() -> bool { false }
+        open spec fn dec_rel(b: Seq<u8>, v: &StatusInformation, k: int) -> bool { true }
+        open spec fn dec_total() -> bool { false }
         /// the tag loop is specified by totality and frame clauses only
         open spec fn functional() -> bool { false }
         //@ fn exp:zvt | impl zvt_builder::encoding::Encoding<StatusInformation> for zvt_builder::encoding::Default | encode | mod=packets::tlv props=C03
@@ -95,6 +101,8 @@
         uninterp spec fn spec_dec(b: Seq<u8>) -> Option<(StatusEnquiry, int)>;
         open spec fn progresses() -> bool { false }
         open spec fn self_delimiting() -> bool { false }
+        open spec fn dec_rel(b: Seq<u8>, v: &StatusEnquiry, k: int) -> bool { true }
+        open spec fn dec_total() -> bool { false }
         /// the tag loop is specified by totality and frame clauses only
         open spec fn functional() -> bool { false }
         //@ fn exp:zvt | impl zvt_builder::encoding::Encoding<StatusEnquiry> for zvt_builder::encoding::Default | encode | mod=packets::tlv props=C03
@@ -124,6 +132,8 @@
         uninterp spec fn spec_dec(b: Seq<u8>) -> Option<(DeviceInformation, int)>;
         open spec fn progresses() -> bool { false }
         open spec fn self_delimiting() -> bool { false }
+        open spec fn dec_rel(b: Seq<u8>, v: &DeviceInformation, k: int) -> bool { true }
+        open spec fn dec_total() -> bool { false }
         /// the tag loop is specified by totality and frame clauses only
         open spec fn functional() -> bool { false }
         //@ fn exp:zvt | impl zvt_builder::encoding::Encoding<DeviceInformation> for zvt_builder::encoding::Default | encode | mod=packets::tlv props=C03
@@ -153,6 +163,8 @@
         uninterp spec fn spec_dec(b: Seq<u8>) -> Option<(ReceiptPrintoutCompletion, int)>;
         open spec fn progresses() -> bool { false }
         open spec fn self_delimiting() -> bool { false }
+        open spec fn dec_rel(b: Seq<u8>, v: &ReceiptPrintoutCompletion, k: int) -> bool { true }
+        open spec fn dec_total() -> bool { false }
         /// the tag loop is specified by totality and frame clauses only
         open spec fn functional() -> bool { false }
         //@ fn exp:zvt | impl zvt_builder::encoding::Encoding<ReceiptPrintoutCompletion> for zvt_builder::encoding::Default | encode | mod=packets::tlv props=C03
@@ -182,6 +194,8 @@
         uninterp spec fn spec_dec(b: Seq<u8>) -> Option<(ReservationAbort, int)>;
         open spec fn progresses() -> bool { false }
         open spec fn self_delimiting() -> bool { false }
+        open spec fn dec_rel(b: Seq<u8>, v: &ReservationAbort, k: int) -> bool { true }
+        open spec fn dec_total() -> bool { false }
         /// the tag loop is specified by totality and frame clauses only
         open spec fn functional() -> bool { false }
         //@ fn exp:zvt | impl zvt_builder::encoding::Encoding<ReservationAbort> for zvt_builder::encoding::Default | encode | mod=packets::tlv props=C03
@@ -211,6 +225,8 @@
         uninterp spec fn spec_dec(b: Seq<u8>) -> Option<(Bmp60, int)>;
         open spec fn progresses() -> bool { false }
         open spec fn self_delimiting() -> bool { false }
+        open spec fn dec_rel(b: Seq<u8>, v: &Bmp60, k: int) -> bool { true }
+        open spec fn dec_total() -> bool { false }
         /// the tag loop is specified by totality and frame clauses only
         open spec fn functional() -> bool { false }
         //@ fn exp:zvt | impl zvt_builder::encoding::Encoding<Bmp60> for zvt_builder::encoding::Default | encode | mod=packets::tlv props=C03
@@ -240,6 +256,8 @@
         uninterp spec fn spec_dec(b: Seq<u8>) -> Option<(AuthData, int)>;
         open spec fn progresses() -> bool { false }
         open spec fn self_delimiting() -> bool { false }
+        open spec fn dec_rel(b: Seq<u8>, v: &AuthData, k: int) -> bool { true }
+        open spec fn dec_total() -> bool { false }
         /// the tag loop is specified by totality and frame clauses only
         open spec fn functional() -> bool { false }
         //@ fn exp:zvt | impl zvt_builder::encoding::Encoding<AuthData> for zvt_builder::encoding::Default | encode | mod=packets::tlv props=C03
@@ -269,6 +287,8 @@
         uninterp spec fn spec_dec(b: Seq<u8>) -> Option<(PreAuthData, int)>;
         open spec fn progresses() -> bool { false }
         open spec fn self_delimiting() -> bool { false }
+        open spec fn dec_rel(b: Seq<u8>, v: &PreAuthData, k: int) -> bool { true }
+        open spec fn dec_total() -> bool { false }
         /// the tag loop is specified by totality and frame clauses only
         open spec fn functional() -> bool { false }
         //@ fn exp:zvt | impl zvt_builder::encoding::Encoding<PreAuthData> for zvt_builder::encoding::Default | encode | mod=packets::tlv props=C03
@@ -298,6 +318,8 @@
         uninterp spec fn spec_dec(b: Seq<u8>) -> Option<(Diagnosis, int)>;
         open spec fn progresses() -> bool { false }
         open spec fn self_delimiting() -> bool { false }
+        open spec fn dec_rel(b: Seq<u8>, v: &Diagnosis, k: int) -> bool { true }
+        open spec fn dec_total() -> bool { false }
         /// the tag loop is specified by totality and frame clauses only
         open spec fn functional() -> bool { false }
         //@ fn exp:zvt | impl zvt_builder::encoding::Encoding<Diagnosis> for zvt_builder::encoding::Default | encode | mod=packets::tlv props=C03
@@ -327,6 +349,8 @@
         uninterp spec fn spec_dec(b: Seq<u8>) -> Option<(ReadCard, int)>;
         open spec fn progresses() -> bool { false }
         open spec fn self_delimiting() -> bool { false }
+        open spec fn dec_rel(b: Seq<u8>, v: &ReadCard, k: int) -> bool { true }
+        open spec fn dec_total() -> bool { false }
         /// the tag loop is specified by totality and frame clauses only
         open spec fn functional() -> bool { false }
         //@ fn exp:zvt | impl zvt_builder::encoding::Encoding<ReadCard> for zvt_builder::encoding::Default | encode | mod=packets::tlv props=C03
@@ -356,6 +380,8 @@
         uninterp spec fn spec_dec(b: Seq<u8>) -> Option<(ZvtString, int)>;
         open spec fn progresses() -> bool { false }
         open spec fn self_delimiting() -> bool { false }
+        open spec fn dec_rel(b: Seq<u8>, v: &ZvtString, k: int) -> bool { true }
+        open spec fn dec_total() -> bool { false }
         /// the tag loop is specified by totality and frame clauses only
         open spec fn functional() -> bool { false }
         //@ fn exp:zvt | impl zvt_builder::encoding::Encoding<ZvtString> for zvt_builder::encoding::Default | encode | mod=packets::tlv props=C03
@@ -385,6 +411,8 @@
         uninterp spec fn spec_dec(b: Seq<u8>) -> Option<(TextLines, int)>;
         open spec fn progresses() -> bool { false }
         open spec fn self_delimiting() -> bool { false }
+        open spec fn dec_rel(b: Seq<u8>, v: &TextLines, k: int) -> bool { true }
+        open spec fn dec_total() -> bool { false }
         /// the tag loop is specified by totality and frame clauses only
         open spec fn functional() -> bool { false }
         //@ fn exp:zvt | impl zvt_builder::encoding::Encoding<TextLines> for zvt_builder::encoding::Default | encode | mod=packets::tlv props=C03
@@ -414,6 +442,8 @@
         uninterp spec fn spec_dec(b: Seq<u8>) -> Option<(PrintTextBlock, int)>;
         open spec fn progresses() -> bool { false }
         open spec fn self_delimiting() -> bool { false }
+        open spec fn dec_rel(b: Seq<u8>, v: &PrintTextBlock, k: int) -> bool { true }
+        open spec fn dec_total() -> bool { false }
         /// the tag loop is specified by totality and frame clauses only
         open spec fn functional() -> bool { false }
         //@ fn exp:zvt | impl zvt_builder::encoding::Encoding<PrintTextBlock> for zvt_builder::encoding::Default | encode | mod=packets::tlv props=C03
@@ -443,6 +473,8 @@
         uninterp spec fn spec_dec(b: Seq<u8>) -> Option<(Registration, int)>;
         open spec fn progresses() -> bool { false }
         open spec fn self_delimiting() -> bool { false }
+        open spec fn dec_rel(b: Seq<u8>, v: &Registration, k: int) -> bool { true }
+        open spec fn dec_total() -> bool { false }
         /// the tag loop is specified by totality and frame clauses only
         open spec fn functional() -> bool { false }
         //@ fn exp:zvt | impl zvt_builder::encoding::Encoding<Registration> for zvt_builder::encoding::Default | encode | mod=packets::tlv props=C03
